@@ -23,6 +23,13 @@ NEEDS = {
  "C11-m2": ("C11", "SumSegmentTree updates ancestors incrementally (delta) instead of recomputing: totals drift after huge priorities are lowered", ""),
  "C12-m1": ("C12", "auto-reset only when all agents terminated or all truncated: mixed termination/truncation in one step leaves the sub-env un-reset", ""),
  "C12-m2": ("C12", "actions mapped with enumerate(env.agents) (live agents): after a non-last agent leaves early, later agents receive their neighbour's action", "patch rebased onto the repaired worker code"),
+ "C13-m1": ("C13", "call_wait guard `!= WAITING_CALL` became `== DEFAULT`: only for the sequence step_async/reset_async -> call_wait (no NoAsyncCallError, replies consumed as call results)", ""),
+ "C13-m2": ("C13", "state reset after the poll removed from the *_wait methods: only when a worker with index >= 1 is SIGKILLed during a pending call and close() follows (deadlock, workers left alive)", ""),
+ "C14-m1": ("C14", "DDPG clips only in training mode: evaluation-mode actions leave the space when rescaling a saturated output overshoots bounds that are not exactly representable", "missed by the first C14 version (all Box bounds dyadic); caught after adding the non-dyadic asymmetric Box 'Bnd' - which also exposed the same defect in MADDPG/MATD3 evaluation mode on the unchanged tree (repaired)"),
+ "C14-m2": ("C14", "MADDPG pairs action masks with agents by position of the infos dict: only when masks differ and infos lists the agents in another order than agent_ids", "missed by the first C14 version; caught after listing infos in reverse key order in part of the lattice (which also exposed IPPO's order dependence on the unchanged tree: recorded as open finding)"),
+ "C15-m1": ("C15", "image normalisation done in place: float32 observations handed in as numpy arrays are rewritten, so a batch and its rows (or the same observation twice) give different results", ""),
+ "C15-m2": ("C15", "assemble/disassemble_homogeneous_outputs switched (consistently) to env-major layout while IPPO batches agent-major: >=2 homogeneous agents and >=2 environments in one call", ""),
+ "C04-m1": ("C04", "StochasticActor.recreate_network preserves MLP->MLP and re-wraps: the learned log_std is reset on (even blocked) latent mutations with Box actions", ""),
 }
 for name, (prop, needs, note) in NEEDS.items():
     d = os.path.join(HERE, "seeded", name)
